@@ -35,6 +35,11 @@ def opsKernel (op : String) : Option (Rd String) :=
   | "quad.subdivide" => some do let l : QuadBez K ← quad; let (a, b) := l.subdivide; return s!"{eQuad a} {eQuad b}"
   | "cubic.subdivide" => some do let l : CubicBez K ← cubic; let (a, b) := l.subdivide; return s!"{eCubic a} {eCubic b}"
   | "quad.deriv" => some do let l : QuadBez K ← quad; return eLine l.deriv
+  | "cubic.moments" => some do let l : CubicBez K ← cubic; let (a, b, c) := momentIntegrals l; return s!"{e a} {e b} {e c}"
+  | "cubic.offset_eval" => some do
+      let l : CubicBez K ← cubic; let d : K ← num; let t : K ← num
+      let co := CubicOffset.new l d
+      return s!"{ePt (co.eval t)} {eVec (co.eval_deriv t)} {e (co.cusp_sign t)}"
   | "cubic.deriv" => some do let l : CubicBez K ← cubic; return eQuad l.deriv
   | "quad.raise" => some do let l : QuadBez K ← quad; return eCubic l.raise
   | "line.startend" => some do let l : Line K ← line; return s!"{ePt l.start} {ePt l.end}"
